@@ -290,10 +290,13 @@ PLAN["C09"] = other(
     "(shift, drop, clip, OutOfBounds iff error mode and out of the old span, hull span); Textgrid.appendTextgrid proved "
     "equal to the spec from the property (A's entries followed by B's shifted by A's end, span [A.min, A.max + B.max], "
     "names per onlyMatchingNames, order A then B) for textgrids with 0..2 tiers each whose tiers share their "
-    "textgrid's span (tier COUNT enumerated; names, spans and contents symbolic). Bounded: the same on grids plus the "
-    "+x/-x law.",
+    "textgrid's span (tier COUNT enumerated; names, spans and contents symbolic); the law 'shifting by +x then -x "
+    "restores every entry when nothing was clipped' is proved for both tier classes as a lemma over the two "
+    "editTimestamps contracts (REAL arithmetic: exactly; the rounding noise of floats is bounded-checked). "
+    "Bounded: the same on grids, the +x/-x law on decimals.",
     "Shifting and concatenation of tiers and of textgrids (<= 2 tiers each) move every entry by exactly the stated "
-    "amount (proved for all inputs); the round-trip law and larger textgrids on the stated bounded domain.",
+    "amount, and shifting there and back restores every entry (proved for all inputs, REAL arithmetic); rounding "
+    "noise of the round trip and larger textgrids on the stated bounded domain.",
     ["c09_shift_append"], "; the enumeration of the number of tiers per textgrid (0..2) is a bound")
 PLAN["C11"]["bounded"] = ["c11_list_model"]
 PLAN["C11"]["level"] = "other"
